@@ -179,6 +179,9 @@ package bbolt
 
 //@ func (*DB).freepages
 //@   opaque
+//@   ensures forall f int :: calls("freelist.Interface.Rollback", f) == old(calls("freelist.Interface.Rollback", f))
+//@   ensures forall f int :: calls("freelist.Interface.Reload", f) == old(calls("freelist.Interface.Reload", f)) && calls("freelist.Interface.NoSyncReload", f) == old(calls("freelist.Interface.NoSyncReload", f))
+//@   ensures lastrollback == old(lastrollback) && unsynced == old(unsynced) && nwrites == old(nwrites)
 //@   modifies nothing
 
 //@ func (*Bucket).rebalance
